@@ -42,6 +42,8 @@ THEOREMS = [
      "forall (St A : Type) (nxt : St -> option (St * Z)) (st : St) (v : list A) (st' : St) (v' : list A), shuffle nxt st v = Some (st', v') -> Permutation v v'"),
     ('c14_shuffle_total',
      'forall (St A : Type) (nxt : St -> option (St * Z)) (st : St) (v : list A), (forall s, nxt s <> None) -> Z.of_nat (length v) <= 2 ^ 64 -> shuffle nxt st v <> None'),
+    ('c14_shuffle_reaches_all',
+     'forall (A : Type) (v p : list A), Permutation p v -> Z.of_nat (length v) <= 2 ^ 64 -> exists rs, length rs = (length v - 1)%nat /\\ Forall (fun r => 0 <= r < 2 ^ 64) rs /\\ shuffle_script rs v = Some p'),
     ('c14_shuffle_reaches_all_partial',
      'forall (n : nat) (p : list Z), (n <= 6)%nat -> Permutation p (zseq (N.of_nat n)) -> exists rs, length rs = (n - 1)%nat /\\ Forall (fun r => 0 <= r < 2 ^ 64) rs /\\ shuffle_script rs (zseq (N.of_nat n)) = Some p'),
     ('c14_old_low_bits_periodic',
@@ -607,7 +609,7 @@ def extra(ctx, known):
 
 
 MANIFEST = {
-    "text": "Coq theorems (18 pinned; the integer, LCG and shuffle ones closed under the global context, the real-number "
+    "text": "Coq theorems (19 pinned; the integer, LCG and shuffle ones closed under the global context, the real-number "
             "float ones with Flocq's standard-library axioms) about an executable Gallina model of rlib_rand (integer "
             "ranges parametric in width and signedness with explicit wrapping, the guarded f64 range on "
             "SpecFloat(53,1024), the 64-bit LCG with its output mixing, shuffle over an arbitrary raw source): "
@@ -616,8 +618,8 @@ MANIFEST = {
             "c14_full_range_is_truncation, c14_empty_range_panics, c14_stream_deterministic / c14_seed_injective / "
             "c14_state_step_bijective / c14_output_bijective (streams are a function of the seed; copies agree), "
             "c14_shuffle_permutation and c14_shuffle_total (any raw source: the result is a Permutation, no index leaves "
-            "the slice), c14_shuffle_reaches_all_partial and c14_fairness_partial (lengths <= 6: every order is produced "
-            "by some raw script resp. by an explicit seed of the real generator), c14_float_in_range / "
+            "the slice), c14_shuffle_reaches_all (every length: every order is produced by some raw script), c14_fairness_partial (lengths <= 6: every order is "
+            "produced by an explicit seed of the real generator), c14_float_in_range / "
             "c14_float_in_range_real / c14_float_unit_in_0_1 / c14_float_empty_panics (start <= x < end for every finite "
             "start < end and every raw word, in SFcompare and in R), c14_old_low_bits_periodic (the repaired defect, "
             "proved: the old output had period dividing 2^k in its low k bits). The model is tied to the code on every "
